@@ -33,6 +33,7 @@ func init() {
 			{ID: "C14.6", Doc: "no write after close", Floor: 4, Run: c19r1},
 			{ID: "C14.7", Doc: "joins cannot deadlock on the server lock: every channel wait, WaitGroup.Wait and socket call runs with Server.mu released (shared with C01.7)", Floor: 10, Run: c01r7},
 			{ID: "C14.9", Doc: "a query callback can always be released by stopping its lookup: each of its blocking channel operations has a case on its own query context", Floor: 3, Run: c14r9},
+			{ID: "C14.10", Doc: "every wait inside the send routine can be ended by the caller's context (a held sender would keep Query from returning)", Floor: 1, Run: c14r10},
 			{ID: "C14.8", Doc: "WaitGroup joins count every goroutine before it starts", Floor: 3, Run: c14r8},
 		},
 	})
@@ -681,5 +682,65 @@ func c14r9(w *World, rr *RuleRun) {
 		if n == 0 {
 			rr.ObligeTrivial(shortFuncName(cb), "query callback has no channel operation of its own", w.P.Pos(cb.Pos()), true, "")
 		}
+	}
+}
+
+// c14r10: writeToNode waits for send budget; that wait - and any other blocking operation added to
+// the send routine - must be cancellable through the context parameter the query passes in.
+func c14r10(w *World, rr *RuleRun) {
+	a := w.sendAnchors()
+	if len(a.sites) == 0 {
+		rr.Broken("no socket write site")
+		return
+	}
+	sendFn := enclosingNamed(a.sites[0].Parent())
+	var ctxP *ssa.Parameter
+	for _, p := range sendFn.Params {
+		if strings.HasSuffix(p.Type().String(), "context.Context") {
+			ctxP = p
+		}
+	}
+	if ctxP == nil {
+		rr.Oblige(shortFuncName(sendFn), "the send routine takes the caller's context", w.P.Pos(sendFn.Pos()), false, "no context parameter")
+		return
+	}
+	ctxT := w.TS.Of(ctxP)
+	n := 0
+	for _, f := range w.regionFuncs(sendFn) {
+		eachInstr([]*ssa.Function{f}, func(_ *ssa.Function, ins ssa.Instruction) {
+			switch x := ins.(type) {
+			case *ssa.Select:
+				if !x.Blocking {
+					return
+				}
+				n++
+				ok := false
+				for _, st := range x.States {
+					ch := w.TS.Of(st.Chan)
+					if st.Dir == types.RecvOnly && ch.Op == OpCall && suffixName(ch) == "Done" && len(ch.Args) == 1 && termEq(ch.Args[0], ctxT) {
+						ok = true
+					}
+				}
+				rr.At(w, ins, "a blocking select in the send routine has a case on the caller's context", ok, "")
+			case *ssa.UnOp:
+				if x.Op == token.ARROW {
+					n++
+					ch := w.TS.Of(x.X)
+					ok := ch.Op == OpCall && suffixName(ch) == "Done" && len(ch.Args) == 1 && termEq(ch.Args[0], ctxT)
+					rr.At(w, ins, "a channel wait in the send routine is on the caller's context", ok, "waits on "+trunc(ch.String(), 80))
+				}
+			default:
+				if c := callInstrCommon(ins); c != nil {
+					if o := calleeObj(c); o != nil && o.Name() == "Wait" && recvNamed(o) == "Limiter" {
+						n++
+						ok := len(c.Args) == 2 && termEq(w.TS.Of(c.Args[1]), ctxT)
+						rr.At(w, ins, "the wait for send budget is bound to the caller's context", ok, "")
+					}
+				}
+			}
+		})
+	}
+	if n == 0 {
+		rr.ObligeTrivial(shortFuncName(sendFn), "the send routine never waits", "-", true, "")
 	}
 }
